@@ -1,7 +1,7 @@
 prop(
     "C11",
     quick=[("native", 16)],
-    thorough=[("native", 16), ("asan", 8), ("miri", 8), ("fuzz", 16)],
+    thorough=[("native", 16), ("asan", 8), ("miri", 8), ("fuzz", 16), ("compat", 8)],
     level="exploration",
     min_evals={"quick": 600_000, "thorough": 10_000_000},
     # configuration of the `fuzz` stage (driver side: run_fuzz_stage in ../../check, target: harness/fuzz/fuzz_targets/c11_xml.rs)
